@@ -298,11 +298,15 @@ def state_digest(fr, with_data=True):
     return digest(*parts)
 
 
-def state_fields(fr):
-    return {"fs": np.array(fr.fs, copy=True), "ts": np.array(fr.ts, copy=True), "shape": tuple(fr.shape), "df": fr.df,
-            "dt": fr.dt, "fch1": fr.fch1, "ascending": fr.ascending, "t_start": fr.t_start, "source_name": fr.source_name,
-            "noise_mean": fr.noise_mean, "noise_std": fr.noise_std, "metadata": copy.deepcopy(fr.metadata),
-            "rng": repr(fr.rng.bit_generator.state), "fmin": fr.fmin, "fmax": fr.fmax}
+def state_fields(fr, with_noise=True):
+    d = {"fs": np.array(fr.fs, copy=True), "ts": np.array(fr.ts, copy=True), "shape": tuple(fr.shape), "df": fr.df,
+         "dt": fr.dt, "fch1": fr.fch1, "ascending": fr.ascending, "t_start": fr.t_start, "source_name": fr.source_name,
+         "metadata": copy.deepcopy(fr.metadata), "rng": repr(fr.rng.bit_generator.state), "fmin": fr.fmin, "fmax": fr.fmax}
+    if with_noise:
+        # reading the estimates is an observation; callers that must not observe pass with_noise=False
+        d["noise_mean"] = fr.noise_mean
+        d["noise_std"] = fr.noise_std
+    return d
 
 
 def diff_fields(a, b):
